@@ -1102,23 +1102,31 @@ func ruleExpiresMinusDate(c *Ctx, rule string) {
 		return false
 	}
 	n := 0
-	instrsOf(ff, func(in ssa.Instruction) {
-		call, ok := in.(*ssa.Call)
-		if !ok || !callIsMethod(&call.Call, "time", "Time", "Sub") {
-			return
-		}
-		recv, args := recvAndArgs(&call.Call)
-		if !c.An.dependsOnCall(recv, func(cc *ssa.Call) bool { return readsHeader(cc, "Expires") }) {
-			return
-		}
-		n++
-		where := c.P.InstrPos(in) + " `" + in.String() + "`"
-		if c.An.dependsOnCall(args[0], func(cc *ssa.Call) bool { return readsHeader(cc, "Date") }) {
-			c.Pass(rule, "expires-minus-date", desc, where)
-		} else {
-			c.Fail(rule, "expires-minus-date", desc, where+": the subtrahend is not the stored response's Date; with a Date older than the time of receipt (a response relayed by another cache, a lagging origin clock) the gap is taken off the lifetime and counted in the age, so the entry is stale while the clock is still before Expires")
-		}
-	})
+	// the freshness function and the helpers it delegates the lifetime to (values are followed through their parameters)
+	var scope []*ssa.Function
+	for g := range c.P.StaticTree(ff) {
+		scope = append(scope, g)
+	}
+	sort.Slice(scope, func(i, j int) bool { return FuncName(scope[i]) < FuncName(scope[j]) })
+	for _, g := range scope {
+		instrsOf(g, func(in ssa.Instruction) {
+			call, ok := in.(*ssa.Call)
+			if !ok || !callIsMethod(&call.Call, "time", "Time", "Sub") {
+				return
+			}
+			recv, args := recvAndArgs(&call.Call)
+			if !c.An.dependsOnCallFull(recv, func(cc *ssa.Call) bool { return readsHeader(cc, "Expires") }) {
+				return
+			}
+			n++
+			where := c.P.InstrPos(in) + " `" + in.String() + "`"
+			if c.An.dependsOnCallFull(args[0], func(cc *ssa.Call) bool { return readsHeader(cc, "Date") }) {
+				c.Pass(rule, "expires-minus-date", desc, where)
+			} else {
+				c.Fail(rule, "expires-minus-date", desc, where+": the subtrahend is not the stored response's Date; with a Date older than the time of receipt (a response relayed by another cache, a lagging origin clock) the gap is taken off the lifetime and counted in the age, so the entry is stale while the clock is still before Expires")
+			}
+		})
+	}
 	if n == 0 {
 		c.Undecided(rule, "expires-minus-date", desc, "no time difference with the decoded Expires as minuend in "+c.P.ShortName(ff))
 	}
